@@ -28,10 +28,14 @@ Qed.
 (* the composition theorems at the built-in index *)
 Theorem no_panic_builtin snell_inv sd_t sd_p U minpos c :
   (forall b e cs, snell_inv b e cs <> None) ->
+  no_total_internal_reflection builtin_index_of snell_inv sd_t sd_p c ->
+  angle_search_defined builtin_index_of snell_inv sd_t sd_p c ->
+  period_search_defined_at builtin_index_of snell_inv sd_t sd_p c ->
   is_panic (try_as_spdc_now R_ops U (oracles_of_model builtin_index_of snell_inv sd_t sd_p) minpos c) = false.
 Proof. apply no_panic_composed. Qed.
 
 Theorem idempotent_builtin snell_inv sd_t sd_p minpos s s' nf :
+  idler_defined_before_and_after builtin_index_of snell_inv sd_t sd_p minpos s ->
   try_as_optimum_now (oracles_of_model builtin_index_of snell_inv sd_t sd_p) minpos s = Ok (s', nf) ->
   try_as_optimum_now (oracles_of_model builtin_index_of snell_inv sd_t sd_p) minpos s' = Ok (s', nf).
 Proof. apply idempotent_composed. Qed.
